@@ -67,6 +67,70 @@ class ExcFlow:
         anc = self.ancestors(exc)
         return "errors:JoseError" in anc or "ValueError" in anc
 
+    def _raised_classes(self, fn: FunctionInfo, e: ast.expr) -> List[str]:
+        """the class(es) a raise statement names.  A local that was bound from a table of classes (`_, _, error_cls = RULES[name]`; a dispatch table
+        refactoring) stands for the classes at that position of the table - the selected row when the key folds, every row otherwise."""
+        ex = e.func if isinstance(e, ast.Call) else e
+        if isinstance(ex, ast.Name) and ex.id not in fn.params:
+            r = self.prog.resolve_expr(fn.module, ex, fn)
+            if not isinstance(r, (ClassInfo, Ext)):
+                got = self._local_class_values(fn, ex.id)
+                if got:
+                    return got
+        return [self.class_name(fn, e)]
+
+    def _local_class_values(self, fn: FunctionInfo, name: str) -> List[str]:
+        from .fold import Folder, ClassVal, ExtVal, is_unknown
+        from .program import fn_nodes
+        F = self.__dict__.get("_folder")
+        if F is None:
+            F = self.__dict__["_folder"] = Folder(self.prog)
+        out: List[str] = []
+
+        def names_of(v) -> Optional[List[str]]:
+            if isinstance(v, ClassVal):
+                return [v.cls.short]
+            if isinstance(v, ExtVal) and not v.called:
+                return [self.canon(v.name)]
+            return None
+        for n in fn_nodes(fn):
+            if not isinstance(n, ast.Assign) or len(n.targets) != 1:
+                continue
+            t = n.targets[0]
+            idx = None
+            if isinstance(t, ast.Name) and t.id == name:
+                idx = ()
+            elif isinstance(t, (ast.Tuple, ast.List)):
+                for i, x in enumerate(t.elts):
+                    if isinstance(x, ast.Name) and x.id == name:
+                        idx = (i,)
+            if idx is None:
+                continue
+            try:
+                v = F.expr(n.value, {}, fn.module)
+            except Exception:
+                return []
+            rows = [v]
+            if is_unknown(v) and isinstance(n.value, ast.Subscript):
+                try:
+                    tab = F.expr(n.value.value, {}, fn.module)  # the key does not fold: every row of the table
+                except Exception:
+                    return []
+                rows = list(tab.values()) if isinstance(tab, dict) else (list(tab) if isinstance(tab, (list, tuple)) else [])
+                if not rows:
+                    return []
+            for row in rows:
+                el = row
+                for i in idx:
+                    if not isinstance(el, (tuple, list)) or i >= len(el):
+                        return []
+                    el = el[i]
+                nm = names_of(el)
+                if nm is None:
+                    return []
+                out.extend(x for x in nm if x not in out)
+        return out
+
     def class_name(self, fn: FunctionInfo, e: ast.expr) -> str:
         if isinstance(e, ast.Call):
             e = e.func
@@ -257,8 +321,9 @@ class ExcFlow:
                 return out | (caught or set())
             if isinstance(st.exc, ast.Name) and hname is not None and st.exc.id == hname:
                 return out | (caught or set())
-            cname = self.class_name(fn, st.exc)
-            out.add(Esc(cname, fn.short, norm(st)[:80], st.lineno))
+            cands = self._raised_classes(fn, st.exc)
+            for cname in cands:
+                out.add(Esc(cname, fn.short, norm(st)[:80], st.lineno))
             return out
         if isinstance(st, ast.Assert):
             out = self._exprs(fn, st, caught, hname)
